@@ -1,0 +1,108 @@
+//go:build verif
+
+package verifhook
+
+import (
+	"fmt"
+	"reflect"
+	"strings"
+
+	"github.com/verily-src/fhirpath-go/fhirpath"
+	"github.com/verily-src/fhirpath-go/fhirpath/internal/expr"
+	"github.com/verily-src/fhirpath-go/fhirpath/internal/funcs"
+)
+
+// DumpExpr renders the compiled node tree of an expression as an s-expression:
+// node kind, operator, literal text, field/type/function name and children.
+func DumpExpr(e *fhirpath.Expression) string {
+	v := reflect.ValueOf(e).Elem().FieldByName("expression")
+	// read the unexported field without mutating anything
+	inner := reflect.NewAt(v.Type(), v.Addr().UnsafePointer()).Elem().Interface()
+	if inner == nil {
+		return "(nil)"
+	}
+	return dumpNode(inner.(expr.Expression))
+}
+
+var arithNames = map[uintptr]string{}
+var funcNames = map[uintptr]string{}
+
+func init() {
+	for name, fn := range map[string]any{"+": expr.EvaluateAdd, "-": expr.EvaluateSub, "*": expr.EvaluateMul, "/": expr.EvaluateDiv, "div": expr.EvaluateFloorDiv, "mod": expr.EvaluateMod} {
+		arithNames[reflect.ValueOf(fn).Pointer()] = name
+	}
+	t := funcs.AddExperimentalFuncs(funcs.Clone())
+	for name, fn := range t {
+		p := reflect.ValueOf(fn.Func).Pointer()
+		if old, ok := funcNames[p]; ok {
+			// several names bound to one implementation (placeholders): keep all of them
+			funcNames[p] = old + "|" + name
+		} else {
+			funcNames[p] = name
+		}
+	}
+}
+
+func dumpNode(n expr.Expression) string {
+	if n == nil || (reflect.ValueOf(n).Kind() == reflect.Ptr && reflect.ValueOf(n).IsNil()) {
+		return "(nil)"
+	}
+	switch v := n.(type) {
+	case *expr.ExpressionSequence:
+		parts := make([]string, 0, len(v.Expressions))
+		for _, c := range v.Expressions {
+			parts = append(parts, dumpNode(c))
+		}
+		return "(seq " + strings.Join(parts, " ") + ")"
+	case *expr.IdentityExpression:
+		return "(this)"
+	case *expr.FieldExpression:
+		return fmt.Sprintf("(field %q)", v.FieldName)
+	case *expr.TypeExpression:
+		return fmt.Sprintf("(roottype %q)", v.Type)
+	case *expr.LiteralExpression:
+		if v.Literal == nil {
+			return "(lit \"{}\")"
+		}
+		return fmt.Sprintf("(lit %q)", fmt.Sprintf("%s:%v", v.Literal.Name(), v.Literal))
+	case *expr.IndexExpression:
+		return "(index " + dumpNode(v.Index) + ")"
+	case *expr.EqualityExpression:
+		op := "="
+		if v.Not {
+			op = "!="
+		}
+		return fmt.Sprintf("(bin %q %s %s)", op, dumpNode(v.Left), dumpNode(v.Right))
+	case *expr.FunctionExpression:
+		name, ok := funcNames[reflect.ValueOf(v.Fn).Pointer()]
+		if !ok {
+			name = "?"
+		}
+		parts := []string{fmt.Sprintf("%q", name)}
+		for _, a := range v.Args {
+			parts = append(parts, dumpNode(a))
+		}
+		return "(call " + strings.Join(parts, " ") + ")"
+	case *expr.IsExpression:
+		return fmt.Sprintf("(typeop \"is\" %q %s)", fmt.Sprint(v.Type), dumpNode(v.Expr))
+	case *expr.AsExpression:
+		return fmt.Sprintf("(typeop \"as\" %q %s)", fmt.Sprint(v.Type), dumpNode(v.Expr))
+	case *expr.BooleanExpression:
+		return fmt.Sprintf("(bin %q %s %s)", string(v.Op), dumpNode(v.Left), dumpNode(v.Right))
+	case *expr.ComparisonExpression:
+		return fmt.Sprintf("(bin %q %s %s)", string(v.Op), dumpNode(v.Left), dumpNode(v.Right))
+	case *expr.ArithmeticExpression:
+		name, ok := arithNames[reflect.ValueOf(v.Op).Pointer()]
+		if !ok {
+			name = "?"
+		}
+		return fmt.Sprintf("(bin %q %s %s)", name, dumpNode(v.Left), dumpNode(v.Right))
+	case *expr.ConcatExpression:
+		return fmt.Sprintf("(bin \"&\" %s %s)", dumpNode(v.Left), dumpNode(v.Right))
+	case *expr.ExternalConstantExpression:
+		return fmt.Sprintf("(env %q)", v.Identifier)
+	case *expr.NegationExpression:
+		return "(neg " + dumpNode(v.Expr) + ")"
+	}
+	return fmt.Sprintf("(unknown %q)", fmt.Sprintf("%T", n))
+}
